@@ -382,7 +382,9 @@ func runC18(run *Run, seed int64, l c18List, carriers []string, reclaim time.Dur
 		rig.V.Del.mu.Lock()
 		rig.V.Del.Gate = gate
 		rig.V.Del.mu.Unlock()
-		inj := func(from *FakePeer, msg []byte) { rig.C.Net.Inject(rig.V.EP, from.EP.Addr, BuildPacket(rig.PCfg, msg, rig.Rng)) }
+		inj := func(from *FakePeer, msg []byte) {
+			rig.C.Net.Inject(rig.V.EP, from.EP.Addr, BuildPacket(rig.PCfg, msg, rig.Rng))
+		}
 		inj(x, append([]byte{TUser}, []byte("keeps-the-delegate-busy")...))
 		Settle(time.Millisecond)
 		for i := 0; i < 64; i++ {
